@@ -3,7 +3,7 @@ C01 — AMM pool reserves always equal the tokens the pool really holds; denom l
 Property theorems only.
 -/
 import ElysModel.Ledger.Amm
-namespace Elys.Amm.C01
+namespace Elys.AmmBook.C01
 open FMap
 
 /-- real balance = book + third-party donations (donations ≥ 0), and chain-wide liquidity = Σ_p book. -/
@@ -132,4 +132,4 @@ example : Inv (run {} [[.tokenIn 1 "uusdc" 500, .tokenIn 1 "uatom" 100], [.donat
   · exact ⟨fun k => by simp [FMap.get], fun d => by simp [sumBook, FMap.sumIf, FMap.get], fun k => by simp [FMap.get]⟩
   · intro m hm op ho; simp at hm; rcases hm with h | h | h | h <;> subst h <;> simp at ho <;> (try rcases ho with h | h | h) <;> (try subst h) <;> simp_all [opRepaired]
 
-end Elys.Amm.C01
+end Elys.AmmBook.C01
